@@ -19,6 +19,14 @@ REM = r"^radicle::storage::git::Repository::remove$"
 
 
 def run(ctx):
+    _run(ctx)
+    # the delegate set `clean` protects is read from the identity document at the canonical identity head: it is only as
+    # fresh as the last set_identity_head() of the fetch worker
+    from . import _worker
+    _worker.identity_refresh(ctx, "delegates")
+
+
+def _run(ctx):
     db = ctx.db
     ctx.explanation = (
         "Decides structurally: reference deletion in Repository::clean is dominated by `*local != id` and "
